@@ -1295,3 +1295,310 @@ Proof.
     destruct (same_set_in_r trig_eqb _ _ _ Hss Hin) as [x [Hx Hex]].
     apply trig_eqb_fields in Hex. simpl in Hex. exists x. destruct Hex as [E1 [E2 _]]. auto.
 Qed.
+
+(* -- what the query means -- *)
+
+Lemma query_sound log d x : In x (query spe log d) -> exists it, In it log /\ In (d, x) (grants spe it).
+Proof.
+  unfold query. intro H. apply first_wins_in in H. destruct H as [[]|H].
+  apply for_duty_in in H. apply in_flat_map in H. exact H.
+Qed.
+
+Lemma find_app {A} (f : A -> bool) a b : find f (a ++ b) = match find f a with Some x => Some x | None => find f b end.
+Proof. induction a as [|x r IH]; simpl; [reflexivity|]. destruct (f x); [reflexivity | exact IH]. Qed.
+
+Lemma find_has_pk pk l : has_pk pk l = false -> find (fun x : N * entry => fst x =? pk) l = None.
+Proof.
+  induction l as [|x r IH]; simpl; [reflexivity|]. intro H. apply orb_false_iff in H. destruct H as [H1 H2].
+  rewrite H1. apply IH. exact H2.
+Qed.
+
+Lemma has_pk_find pk l : has_pk pk l = true -> exists x, find (fun x : N * entry => fst x =? pk) l = Some x.
+Proof.
+  induction l as [|x r IH]; simpl; [discriminate|]. destruct (fst x =? pk); [eexists; reflexivity | exact IH].
+Qed.
+
+Lemma find_first_wins pk acc l :
+  find (fun x => fst x =? pk) (first_wins acc l) =
+  match find (fun x => fst x =? pk) acc with Some x => Some x | None => find (fun x => fst x =? pk) l end.
+Proof.
+  revert acc. induction l as [|y r IH]; intro acc; simpl.
+  - destruct (find _ acc); reflexivity.
+  - destruct (has_pk (fst y) acc) eqn:E; rewrite IH.
+    + destruct (N.eqb_spec (fst y) pk) as [Hy|Hy]; [|reflexivity].
+      rewrite Hy in E. destruct (has_pk_find pk acc E) as [x Hx]. rewrite Hx. reflexivity.
+    + rewrite find_app. simpl. destruct (find (fun x => fst x =? pk) acc); [reflexivity|].
+      destruct (fst y =? pk); reflexivity.
+Qed.
+
+Lemma in_find_nodup (l : list (N * entry)) x :
+  NoDup (map fst l) -> In x l -> find (fun y => fst y =? fst x) l = Some x.
+Proof.
+  induction l as [|y r IH]; simpl; [tauto|]. intros Hnd Hin. inversion Hnd as [|? ? Hy Hr]; subst.
+  destruct Hin as [->|Hin]; [rewrite N.eqb_refl; reflexivity|].
+  destruct (N.eqb_spec (fst y) (fst x)) as [E|E]; [|apply IH; assumption].
+  exfalso. apply Hy. rewrite E. apply in_map. exact Hin.
+Qed.
+
+(* The first definition per (duty, public key) wins, whatever is answered later. *)
+Theorem first_definition_wins log d pk e :
+  In (pk, e) (query spe log d) <->
+  find (fun x => fst x =? pk) (for_duty d (flat_map (grants spe) log)) = Some (pk, e).
+Proof.
+  unfold query. pose proof (find_first_wins pk [] (for_duty d (flat_map (grants spe) log))) as Hf. simpl in Hf.
+  rewrite <- Hf. split.
+  - intro H. apply (in_find_nodup _ (pk, e)); [apply first_wins_nodup; constructor | exact H].
+  - intro H. apply find_some in H. tauto.
+Qed.
+
+Theorem query_keys_distinct log d : NoDup (map fst (query spe log d)).
+Proof. unfold query. apply first_wins_nodup. constructor. Qed.
+
+(* Later answers (retries, later resolutions) never change or remove a definition. *)
+Theorem query_extend log more d x : In x (query spe log d) -> In x (query spe (log ++ more) d).
+Proof.
+  unfold query. rewrite flat_map_app, for_duty_app, first_wins_app. apply first_wins_acc.
+Qed.
+
+(* Every validator that some answer assigns to the duty has a definition. *)
+Lemma query_complete log it d pk e :
+  In it log -> In (d, (pk, e)) (grants spe it) -> has_pk pk (query spe log d) = true.
+Proof.
+  intros Hit Hg. unfold query. rewrite has_pk_first_wins. simpl. apply has_pk_In. exists e.
+  apply for_duty_in. apply in_flat_map. exists it. tauto.
+Qed.
+
+Lemma pk_of_idx_in vs idx pk : pk_of_idx vs idx = Some pk -> exists v, In v vs /\ v_idx v = idx /\ v_pk v = pk.
+Proof.
+  induction vs as [|v r IH]; simpl; [discriminate|]. destruct (N.eqb_spec (v_idx v) idx) as [E|E].
+  - intro H. injection H as <-. exists v. auto.
+  - intro H. destruct (IH H) as [v' [A B]]. exists v'. auto.
+Qed.
+
+(* What a grant says. *)
+Lemma grant_meaning it d pk e :
+  i_ep it = epoch_of spe (i_slot it) ->
+  In (d, (pk, e)) (grants spe it) ->
+  exists e0, e = e0 /\ In e0 (i_ents it) /\ e_pk e0 = pk /\
+  (exists v, In v (i_act it) /\ v_idx v = e_vidx e0 /\ v_pk v = pk) /\
+  i_slot it <= snd d /\
+  match i_kind it with
+  | KAtt => (d = (Attester, e_slot e0) \/ d = (Aggregator, e_slot e0))
+  | KPro => d = (Proposer, e_slot e0)
+  | KSync => fst d = SyncContribution /\ epoch_of spe (snd d) = epoch_of spe (i_slot it)
+  end.
+Proof.
+  intros Hep H. pose proof (grant_slot spe it d (pk, e) H) as Hslot.
+  apply grant_in in H. destruct H as [e0 [He0 [Hg Hin]]].
+  apply good_pk in Hg. destruct Hg as [_ Hpk]. apply pk_of_idx_in in Hpk.
+  unfold grants_of_entry in Hin. destruct (i_kind it).
+  - simpl in Hin. destruct Hin as [Hin|[Hin|[]]]; injection Hin as <- <- <-; exists e0; repeat split; auto.
+  - simpl in Hin. destruct Hin as [Hin|[]]; injection Hin as <- <- <-; exists e0; repeat split; auto.
+  - apply in_map_iff in Hin. destruct Hin as [sl [Hin Hsl]]. injection Hin as <- <- <-.
+    exists e0. repeat split; auto. simpl.
+    apply (epoch_slots_in spe (i_slot it) (i_ep it) sl Hs (eq_sym Hep)) in Hsl. rewrite <- Hep. tauto.
+Qed.
+
+(* -- where log items come from -- *)
+
+Lemma log_origin g ls it :
+  In it (g_log (ghost_after D spe g ls)) ->
+  In it (g_log g) \/
+  exists t sc outs rn slot, In (LTick t sc outs) ls /\ In rn sc /\ (slot = t \/ slot = t + 1) /\ item_from spe it slot rn.
+Proof.
+  revert g. induction ls as [|l r IH]; intros g H; [left; exact H|].
+  simpl in H. apply IH in H. destruct H as [H|H].
+  - destruct l as [dt|t sc outs|ep|].
+    + left. exact H.
+    + destruct (gstep_tick_shape g t sc outs) as [more [A1 [A2 _]]]. rewrite A1 in H.
+      apply in_app_or in H. destruct H as [H|H]; [left; exact H|].
+      right. destruct (A2 it H) as [rn [slot [B1 [B2 B3]]]]. exists t, sc, outs, rn, slot.
+      split; [left; reflexivity | auto].
+    + left. simpl in H. destruct (g_resolved g); [destruct (ep <? n)|]; try exact H.
+      simpl in H. apply filter_In in H. tauto.
+    + left. exact H.
+  - right. destruct H as [t [sc [outs [rn [slot [A [B [C E]]]]]]]]. exists t, sc, outs, rn, slot.
+    split; [right; exact A | auto].
+Qed.
+
+Lemma log_at_origin t0 pre t sc outs it :
+  In it (log_at t0 pre t sc) ->
+  exists t' sc' outs' rn slot, In (LTick t' sc' outs') (pre ++ [LTick t sc outs]) /\ In rn sc'
+    /\ (slot = t' \/ slot = t' + 1) /\ item_from spe it slot rn.
+Proof.
+  unfold log_at. intro H. destruct (g_first_shape (ghost_after D spe (ginit t0) pre) t sc) as [more [A1 [A2 _]]].
+  rewrite A1 in H. apply in_app_or in H. destruct H as [H|H].
+  - apply log_origin in H. destruct H as [[]|H].
+    destruct H as [t' [sc' [outs' [rn [slot [A [B [C E]]]]]]]]. exists t', sc', outs', rn, slot.
+    split; [apply in_or_app; left; exact A | auto].
+  - destruct (A2 it H) as [rn [B1 B2]]. exists t, sc, outs, rn, t.
+    split; [apply in_or_app; right; left; reflexivity | auto].
+Qed.
+
+(* A triggered definition was assigned by the beacon node, in an answer that succeeded, to a validator
+   of the validators answer of the same resolution, active for the resolved epoch, with that
+   validator's public key, for this slot. *)
+Theorem triggered_only_assigned t0 ls pre t sc outs post tr pk e :
+  monitor D spe t0 ls = true -> ls = pre ++ LTick t sc outs :: post ->
+  In tr outs -> In (pk, e) (t_defs tr) ->
+  exists t' sc' outs' rn slot vals v,
+    In (LTick t' sc' outs') (pre ++ [LTick t sc outs]) /\ In rn sc' /\ (slot = t' \/ slot = t' + 1) /\
+    r_vals rn = Some vals /\ In v vals /\ is_active (epoch_of spe slot) v = true /\
+    v_idx v = e_vidx e /\ v_pk v = pk /\ e_pk e = pk /\ slot <= t /\
+    match t_ty tr with
+    | Attester | Aggregator => exists l, ok_res (r_att rn) = Some l /\ In e l /\ e_slot e = t
+    | Proposer => exists l, ok_res (r_pro rn) = Some l /\ In e l /\ e_slot e = t
+    | SyncContribution => exists l, ok_res (r_sync rn) = Some l /\ In e l /\ epoch_of spe t = epoch_of spe slot
+    | OtherType => False
+    end.
+Proof.
+  intros Hm Hls Htr Hdef.
+  destruct (tick_triggers t0 ls pre t sc outs post Hm Hls) as [_ [Hall _]].
+  destruct (Hall tr Htr) as [Hty [Hsl [_ [_ [_ Hq]]]]].
+  apply Hq in Hdef. apply query_sound in Hdef. destruct Hdef as [it [Hit Hg]].
+  destruct (log_at_origin t0 pre t sc outs it Hit) as [t' [sc' [outs' [rn [slot [A [B [C Hfrom]]]]]]]].
+  destruct Hfrom as [vals [F1 [F2 [F3 [F4 F5]]]]].
+  assert (Hep : i_ep it = epoch_of spe (i_slot it)) by (rewrite F3; exact F4).
+  destruct (grant_meaning it _ pk e Hep Hg) as [e0 [<- [G1 [G2 [[v [V1 [V2 V3]]] [G3 G4]]]]]].
+  rewrite F2 in V1. apply filter_In in V1. destruct V1 as [V1 V1a].
+  exists t', sc', outs', rn, slot, vals, v. simpl in G3. rewrite F3 in G3.
+  repeat (split; [assumption|]).
+  destruct (i_kind it).
+  - destruct G4 as [G4|G4]; injection G4 as G4a G4b; rewrite G4a; exists (i_ents it); auto.
+  - injection G4 as G4a G4b. rewrite G4a. exists (i_ents it). auto.
+  - destruct G4 as [G4a G4b]. simpl in G4a, G4b. rewrite G4a. exists (i_ents it). rewrite F3 in G4b. auto.
+Qed.
+
+(* -- assigned before the slot => triggered at the slot, exactly once -- *)
+
+Lemma log_mono g mid :
+  forallb (fun l => negb (is_reorg l)) mid = true ->
+  incl (g_log g) (g_log (ghost_after D spe g mid)).
+Proof.
+  revert g. induction mid as [|l r IH]; intros g H; [apply incl_refl|].
+  simpl in H. apply andb_true_iff in H. destruct H as [Hl Hr]. simpl.
+  apply incl_tran with (m := g_log (gstep D spe g l)); [|apply IH; exact Hr].
+  destruct l as [dt|t sc outs|ep|]; try apply incl_refl; [|discriminate].
+  destruct (gstep_tick_shape g t sc outs) as [more [A _]]. rewrite A. apply incl_appl. apply incl_refl.
+Qed.
+
+Lemma grants_types it d x : In (d, x) (grants spe it) -> In (fst d) types.
+Proof.
+  intro H. apply grant_in in H. destruct H as [e [_ [_ H]]]. unfold grants_of_entry in H. unfold types.
+  destruct (i_kind it).
+  - simpl in H. destruct H as [H|[H|[]]]; injection H as <- _; simpl; tauto.
+  - simpl in H. destruct H as [H|[]]; injection H as <- _; simpl; tauto.
+  - apply in_map_iff in H. destruct H as [sl [H _]]. injection H as <- _. simpl. tauto.
+Qed.
+
+Lemma nodup_map_same {A B} (f : A -> B) l x y : NoDup (map f l) -> In x l -> In y l -> f x = f y -> x = y.
+Proof.
+  induction l as [|a r IH]; simpl; [tauto|]. intros Hnd Hx Hy E. inversion Hnd as [|? ? Ha Hr]; subst.
+  destruct Hx as [->|Hx], Hy as [->|Hy]; try reflexivity.
+  - exfalso. apply Ha. rewrite E. apply in_map. exact Hy.
+  - exfalso. apply Ha. rewrite <- E. apply in_map. exact Hx.
+  - apply IH; assumption.
+Qed.
+
+Lemma all_triggers_in ls t sc outs tr : In (LTick t sc outs) ls -> In tr outs -> In tr (all_triggers ls).
+Proof. intros H1 H2. unfold all_triggers. apply in_flat_map. exists (LTick t sc outs). auto. Qed.
+
+(* If some answer recorded before (pre1) assigns validator pk to duty (ty, t), no reorg event is
+   handled in between, and the tick of slot t is delivered, then the duty is triggered at that tick
+   with a definition for pk, and no other trigger of that duty exists anywhere in the history. *)
+Theorem assigned_is_triggered t0 ls pre1 mid t sc outs post it ty pk e :
+  monitor D spe t0 ls = true -> ls = pre1 ++ mid ++ LTick t sc outs :: post ->
+  forallb (fun l => negb (is_reorg l)) mid = true ->
+  In it (g_log (ghost_after D spe (ginit t0) pre1)) -> In ((ty, t), (pk, e)) (grants spe it) ->
+  exists tr, In tr outs /\ t_ty tr = ty /\ t_slot tr = t /\ has_pk pk (t_defs tr) = true /\
+    (forall tr', In tr' (all_triggers ls) -> trig_duty tr' = (ty, t) -> tr' = tr).
+Proof.
+  intros Hm Hls Hmid Hit Hg.
+  assert (Hls' : ls = (pre1 ++ mid) ++ LTick t sc outs :: post) by (rewrite Hls, app_assoc; reflexivity).
+  destruct (tick_triggers t0 ls (pre1 ++ mid) t sc outs post Hm Hls') as [_ [Hall Hex]].
+  assert (Hit' : In it (log_at t0 (pre1 ++ mid) t sc)).
+  { unfold log_at. destruct (g_first_shape (ghost_after D spe (ginit t0) (pre1 ++ mid)) t sc) as [more [A _]].
+    rewrite A. apply in_or_app. left. rewrite ghost_after_app. apply (log_mono _ mid Hmid). exact Hit. }
+  pose proof (query_complete _ it (ty, t) pk e Hit' Hg) as Hhas.
+  assert (Hne : query spe (log_at t0 (pre1 ++ mid) t sc) (ty, t) <> []).
+  { intro E. rewrite E in Hhas. discriminate. }
+  destruct (Hex ty (grants_types it _ _ Hg) Hne) as [tr [Htr [Hty Hsl]]].
+  exists tr. repeat split; try assumption.
+  - destruct (Hall tr Htr) as [_ [_ [_ [_ [_ Hq]]]]]. apply has_pk_In in Hhas. destruct Hhas as [e' He'].
+    apply has_pk_In. exists e'. apply Hq. rewrite Hty. exact He'.
+  - intros tr' Hin' Hd'. apply (nodup_map_same trig_duty (all_triggers ls)).
+    + apply (trigger_at_most_once t0 ls Hm).
+    + exact Hin'.
+    + apply (all_triggers_in ls t sc outs); [rewrite Hls'; apply in_or_app; right; left; reflexivity | exact Htr].
+    + rewrite Hd'. unfold trig_duty. rewrite Hty, Hsl. reflexivity.
+Qed.
+
+(* The first resolution of a tick (made because the epoch is not the resolved one) is in the log the
+   tick's triggers are computed from: a duty resolved at its own slot is triggered at that slot. *)
+Lemma first_resolution_logged t0 pre t rn sc' it :
+  optN_is (g_resolved (ghost_after D spe (ginit t0) pre)) (epoch_of spe t) = false ->
+  In it (g_log (gres spe (ghost_after D spe (ginit t0) pre) t rn)) ->
+  In it (log_at t0 pre t (rn :: sc')).
+Proof. intros H Hin. unfold log_at, g_first. rewrite H. simpl. exact Hin. Qed.
+
+Lemma gres_att_item g slot rn vals la :
+  r_vals rn = Some vals -> filter (is_active (epoch_of spe slot)) vals <> [] -> ok_res (r_att rn) = Some la ->
+  In (I KAtt (epoch_of spe slot) slot (filter (is_active (epoch_of spe slot)) vals) la) (g_log (gres spe g slot rn)).
+Proof.
+  intros Hv Hact Ha. unfold gres. rewrite Hv.
+  destruct (filter (is_active (epoch_of spe slot)) vals) as [|v0 a0] eqn:E; [congruence|].
+  rewrite Ha.
+  set (ia := I KAtt (epoch_of spe slot) slot (v0 :: a0) la).
+  assert (H1 : In ia (g_log (g_add g ia))) by (simpl; apply in_or_app; right; left; reflexivity).
+  destruct (aborted ia); [exact H1|].
+  destruct (ok_res (r_pro rn)) as [lp|]; [|exact H1].
+  set (ip := I KPro (epoch_of spe slot) slot (v0 :: a0) lp).
+  assert (H2 : In ia (g_log (g_add (g_add g ia) ip))) by (simpl; apply in_or_app; left; exact H1).
+  destruct (aborted ip); [exact H2|].
+  destruct (ok_res (r_sync rn)) as [ls|]; [|exact H2].
+  set (isy := I KSync (epoch_of spe slot) slot (v0 :: a0) ls).
+  assert (H3 : In ia (g_log (g_add (g_add (g_add g ia) ip) isy))) by (simpl; apply in_or_app; left; exact H2).
+  destruct (aborted isy); exact H3.
+Qed.
+
+(* -- a failed resolution only adds to the log; it never marks the epoch resolved -- *)
+
+Definition completes (slot : N) (rn : resn) : bool :=
+  match r_vals rn with
+  | None => false
+  | Some vals =>
+      let act := filter (is_active (epoch_of spe slot)) vals in
+      match act with
+      | [] => true
+      | _ =>
+        match ok_res (r_att rn), ok_res (r_pro rn), ok_res (r_sync rn) with
+        | Some la, Some lp, Some ls =>
+            negb (aborted (I KAtt (epoch_of spe slot) slot act la)) &&
+            negb (aborted (I KPro (epoch_of spe slot) slot act lp)) &&
+            negb (aborted (I KSync (epoch_of spe slot) slot act ls))
+        | _, _, _ => false
+        end
+      end
+  end.
+
+Theorem gres_resolved g slot rn :
+  g_resolved (gres spe g slot rn) = if completes slot rn then Some (epoch_of spe slot) else g_resolved g.
+Proof.
+  unfold gres, completes. destruct (r_vals rn) as [vals|]; [|reflexivity].
+  destruct (filter (is_active (epoch_of spe slot)) vals) as [|v0 a0]; [reflexivity|].
+  destruct (ok_res (r_att rn)) as [la|]; [|reflexivity].
+  destruct (ok_res (r_pro rn)) as [lp|]; [|destruct (aborted _); reflexivity].
+  destruct (ok_res (r_sync rn)) as [ls|]; [|destruct (aborted _); [|destruct (aborted _)]; reflexivity].
+  destruct (aborted (I KAtt _ _ _ la)); [reflexivity|].
+  destruct (aborted (I KPro _ _ _ lp)); [reflexivity|].
+  destruct (aborted (I KSync _ _ _ ls)); reflexivity.
+Qed.
+
+Theorem gres_vals_error_noop g slot rn : r_vals rn = None -> gres spe g slot rn = g.
+Proof. intro H. unfold gres. rewrite H. reflexivity. Qed.
+
+Theorem gres_att_error_noop g slot rn : ok_res (r_att rn) = None -> completes slot rn = false -> gres spe g slot rn = g.
+Proof.
+  intros H Hc. unfold gres, completes in *. destruct (r_vals rn) as [vals|]; [|reflexivity].
+  destruct (filter (is_active (epoch_of spe slot)) vals); [discriminate|]. rewrite H. reflexivity.
+Qed.
